@@ -135,6 +135,10 @@ package data
 //@   at call strings.ToLower#* forbid[no-byte-wise-case-mapping-of-field-names;C20] false
 //@   at call strings.ToUpper#* forbid[no-byte-wise-case-mapping-of-field-names;C20] false
 //@   at call data.NewWith#0 assert[field-values-converted-with-the-same-options;C20] arg0 == c
+//@   ghost nv Value = nil
+//@   at call data.NewWith#0 after set nv = res
+//@   at call mapupdate#0 assert[every-field-value-is-the-one-NewWith-made-of-it;C20] val == nv
+//@   at call (time.Time).Format#* forbid[times-are-formatted-in-one-place-only;C20] false
 //@   loop 0
 //@     noterm
 //@ func New
